@@ -22,3 +22,4 @@ for d in seeded/*/; do
   echo "\"_\": {}}}" >> $d/verif_result.json
 done
 git -C /repo worktree remove --force $WT
+rm -rf /tmp/verif-altcache
